@@ -208,10 +208,34 @@ func (a *A) ruleLateRowOwnGroup() {
 			return
 		}
 		n++
-		ok2 := false
-		for _, g := range guardsOf(c.Block()) {
-			if bo, isB := g.Cond.(*ssa.BinOp); isB && (bo.Op == token.EQL || bo.Op == token.NEQ) && (fromRowKey(bo.X) || fromRowKey(bo.Y)) {
-				ok2 = true
+		compared := func(gs []Guard) bool {
+			for _, g := range gs {
+				if bo, isB := g.Cond.(*ssa.BinOp); isB && (bo.Op == token.EQL || bo.Op == token.NEQ) && (fromRowKey(bo.X) || fromRowKey(bo.Y)) {
+					return true
+				}
+			}
+			return false
+		}
+		ok2 := compared(guardsOf(c.Block()))
+		if !ok2 {
+			// the session was picked by a search and carried in a variable (`target = info.session; break` …
+			// `append(target.data, row)`): the comparison held where each candidate was chosen
+			if ld, isLd := c.Call.Args[0].(*ssa.UnOp); isLd && ld.Op == token.MUL {
+				if fa, isFa := ld.X.(*ssa.FieldAddr); isFa {
+					if phi, isPhi := fa.X.(*ssa.Phi); isPhi {
+						all, some := true, false
+						for _, el := range phiLeafEdges(phi) {
+							if k, isK := el.v.(*ssa.Const); isK && k.Value == nil {
+								continue
+							}
+							some = true
+							if el.from == nil || !compared(guardsOf(el.from)) {
+								all = false
+							}
+						}
+						ok2 = all && some
+					}
+				}
 			}
 		}
 		a.Check(ok2, fname(h)+"#own-group", c.Pos(), "a late row is appended to a fired session only after its group key was compared with the session's",
@@ -235,11 +259,7 @@ func (a *A) ruleLateRowOwnGroup() {
 			}
 			m++
 			unique := false
-			for x := range backwardSlice(mu.Key, 8) {
-				if t := TermOf(x, nil); t.Kind == "field" && t.Field == seq {
-					unique = true
-				}
-			}
+			unique = a.sliceInvolvesField(mu.Key, seq, 2)
 			a.Check(unique, fname(fn)+"#fired-session-key-unique", mu.Pos(), "each fired session is stored under a key numbered by the firing",
 				"a fired session is stored under "+TermOf(mu.Key, nil).String()+", which is the same for every session of the group: the next fired session of the group evicts one that is still open for late rows")
 		})
@@ -274,15 +294,31 @@ func (a *A) ruleLateRowOwnGroup() {
 			}
 			_ = strings.HasPrefix
 			unique := false
-			for x := range backwardSlice(mu.Key, 8) {
-				if t := TermOf(x, nil); t.Kind == "field" && t.Field == seq {
-					unique = true
-				}
-			}
+			unique = a.sliceInvolvesField(mu.Key, seq, 2)
 			a.Check(unique, fname(fn)+"#parked-session-key-unique", mu.Pos(), "each gap-closed session is parked under a key numbered by the parking",
 				"a gap-closed session is parked under "+TermOf(mu.Key, nil).String()+", which two pending sessions of one key can share: the later one overwrites the earlier, whose events are never reported")
 		})
 	}
+}
+
+// sliceInvolvesField: v is computed from field f - directly, or through the result of a helper the change
+// introduced (its returned values are followed, `hops` helpers deep).
+func (a *A) sliceInvolvesField(v ssa.Value, f *types.Var, hops int) bool {
+	for x := range backwardSlice(v, 8) {
+		if t := TermOf(x, nil); t.Kind == "field" && t.Field == f {
+			return true
+		}
+		if c, ok := x.(*ssa.Call); ok && hops > 0 {
+			if h := c.Call.StaticCallee(); h != nil && h.Blocks != nil && a.fnInModule(h) && isNewFunc(h) && h.Signature.Results().Len() == 1 {
+				for _, l := range returnLeaves(h, 0) {
+					if a.sliceInvolvesField(l, f, hops-1) {
+						return true
+					}
+				}
+			}
+		}
+	}
+	return false
 }
 
 // backwardSlice: the values v is computed from (operands, transitively, bounded depth).
